@@ -429,6 +429,7 @@ def _csv_reader(ctx: Ctx, mod: Module, rec_name: str) -> None:
            "the column whose key names that parameter" if ok else
            f"{mod.name.split('.')[-1]}.CsvReader: " + "; ".join(problems),
            construct=f"{mod.name.split('.')[-1]} reader chain")
+    _cell_converters(ctx, mod, parse, call, rec_name, pairs)
     # keys used by the reader are keys the writer emits
     w = mod.classes["CsvWriter"].methods["get_column_titles"]
     emitted = {repo.const(mod, a) for n in ast.walk(w.node)
@@ -562,6 +563,89 @@ def _reader_sanity(ctx: Ctx, mod: Module, init: FuncInfo,
            if not problems else f"{short}.CsvReader: "
            + "; ".join(dict.fromkeys(problems))[:700],
            construct=f"{short} reader consistency checks")
+
+
+#: converters from a CSV cell that keep the kind of number that was written
+_CONV_OK = {
+    "int": {"int", "str_to_int"},
+    "float": {"float", "str_to_float", "str_to_num", "str_to_intfloat"},
+    "num": {"str_to_num", "str_to_intfloat", "str_to_intfloatnone"},
+}
+_CONV_KNOWN = {"int", "float", "str_to_int", "str_to_float", "str_to_num",
+               "str_to_intfloat", "str_to_intfloatnone"}
+
+
+def _cell_converters(ctx: Ctx, mod: Any, parse: FuncInfo, call: ast.Call,
+                     rec_name: str, pairs: list) -> None:
+    """A cell is parsed with a converter that gives back the kind of number
+    the record's constructor declares for that field: `int` fields through
+    `int`, `int | float` fields through the converter that keeps integers
+    integers (a float has 53 bits: an integer bound above 2**53 does not
+    come back, and `2` comes back as `2.0`), never through `float`/`int`.
+    """
+    rcls = mod.classes.get(rec_name)
+    init = rcls.methods.get("__init__") if rcls is not None else None
+    if init is None:
+        return
+    ann = {a.arg: a.annotation for a in init.node.args.args
+           if a.annotation is not None}
+    row = parse.params[1] if len(parse.params) > 1 else "data"
+    problems: list[str] = []
+    unknown: list[str] = []
+    n_conv = 0
+
+    def kind_of(an: ast.expr) -> str | None:
+        # the element type of Mapping[str, T] / dict[str, T] is T
+        while isinstance(an, ast.Subscript):
+            sl = an.slice
+            an = sl.elts[-1] if isinstance(sl, ast.Tuple) else sl
+        names = {n.id for n in ast.walk(an) if isinstance(n, ast.Name)}
+        if names and names <= {"int", "float", "None"}:
+            if {"int", "float"} <= names:
+                return "num"
+            return "int" if "int" in names else (
+                "float" if "float" in names else None)
+        return None
+    for p_, a in pairs:
+        k = kind_of(ann[p_]) if p_ in ann else None
+        if k is None:
+            continue
+        for c in ast.walk(a):
+            if not (isinstance(c, ast.Call) and len(c.args) == 1
+                    and not c.keywords and isinstance(
+                        c.args[0], ast.Subscript) and isinstance(
+                        c.args[0].value, ast.Name)
+                    and c.args[0].value.id == row):
+                continue
+            fn = c.func.id if isinstance(c.func, ast.Name) else (
+                c.func.attr if isinstance(c.func, ast.Attribute) else "?")
+            if ast.unparse(c.func) == "str.__len__" or fn == "len":
+                continue
+            n_conv += 1
+            if fn in _CONV_OK[k]:
+                continue
+            want = {"int": "int", "float": "float",
+                    "num": "int | float"}[k]
+            if fn in _CONV_KNOWN:
+                problems.append(
+                    f"the cells of `{p_}` (declared {want}) are parsed with "
+                    f"`{fn}`" + (
+                        ": an integer comes back as a float (2 -> 2.0, and "
+                        "9007199254740993 -> 9007199254740992.0)"
+                        if (k, fn) == ("num", "float") else
+                        ": a fractional or infinite value cannot be read "
+                        "back" if fn in ("int", "str_to_int") else ""))
+            else:
+                unknown.append(f"the converter `{fn}` of the cells of "
+                               f"`{p_}` is not recognised")
+    ok = not problems and not unknown and n_conv >= 4
+    ctx.ob("D19.1", parse, call, ok,
+           f"{mod.name.split('.')[-1]}.CsvReader: all {n_conv} cell "
+           "converters give back the kind of number declared for their "
+           "field" if ok else f"{mod.name.split('.')[-1]}.CsvReader: "
+           + "; ".join(problems or unknown or [
+               f"only {n_conv} cell converters are recognised"]),
+           construct=f"{mod.name.split('.')[-1]} cell converters")
 
 
 # ------------------------------------------------------------------ D19.4
